@@ -13,6 +13,8 @@
  *                                        or 'H' <class letter> raw bytes of the embedded string as its source delivers it
  *   c2 <text>                            cb_nomail with control file "nomail" = <text> LF
  *   c3 <function>                        a handler that answers with a fixed literal (smtp_vrfy, smtp_noop, smtp_rset)
+ *   c4 <heloname> <badcmds> <line>...    the real wait_for_quit() (qsmtpd/syntax.c, with check_max_bad_commands and smtp_quit) reading
+ *                                        these command lines from the client, badcmds preset to the given octet
  * result:  OK <hex of every netnwrite() buffer>...      (CRASH / TIMEOUT come from hcommon.h)
  *
  * functions for c1 and their <param> (one byte):
@@ -63,6 +65,7 @@ void log_writen(int p, const char **s) { (void)p; (void)s; }
 int ssl_timeoutread(SSL *s, time_t t, char *b, const int l) { (void)s; (void)t; (void)b; (void)l; abort(); }
 int ssl_timeoutwrite(SSL *s, time_t t, const char *b, const int l) { (void)s; (void)t; (void)b; (void)l; abort(); }
 
+static unsigned char *r_stream; static size_t r_len, r_pos;
 static ssize_t h_write(int fd, const void *buf, size_t n)
 {
 	if (fd != socketd) abort();
@@ -74,10 +77,21 @@ static int h_poll(struct pollfd *p, nfds_t n, int t)
 {
 	(void)n; (void)t;
 	if (p->events & POLLOUT) { p->revents = POLLOUT; return 1; }
-	p->revents = 0;
+	if (r_pos < r_len) { p->revents = POLLIN; return 1; }
+	p->revents = 0;			/* nothing (more) from the client: data_pending() says no, net_read() times out and ends in dieerror() */
 	return 0;
 }
-static ssize_t h_read(int fd, void *buf, size_t n) { (void)fd; (void)buf; (void)n; return 0; }
+/* input of the session level cases: the command lines of the case, CRLF terminated, one line per segment */
+static ssize_t h_read(int fd, void *buf, size_t n)
+{
+	(void)fd;
+	if (r_pos >= r_len) return 0;		/* the client is gone: net_read() ends in dieerror() */
+	size_t k = 0;
+	while (r_pos + k < r_len && k < n) { k++; if (r_stream[r_pos + k - 1] == '\n') break; }
+	memcpy(buf, r_stream + r_pos, k);
+	r_pos += k;
+	return k;
+}
 
 /* ---------------------------------------------------------------- globals the real code expects */
 struct xmitstat xmitstat;
@@ -100,7 +114,6 @@ const char *blocktype[] = { NULL, "user", "domain", NULL, "global" };
 void freedata(void) { }
 static jmp_buf h_cleanup;
 void conn_cleanup(const int rc) { (void)rc; longjmp(h_cleanup, 1); }
-void sync_pipelining(void) { }
 int tls_verify(void) { return 0; }
 void tarpit(void) { }
 int err_control(const char *a) { (void)a; return 0; }
@@ -245,6 +258,20 @@ static void run_case(int nf, struct field *f)
 	if (op == 0xc2) {
 		put_file("u/nomail", f[1].p, f[1].len, 1);
 		(void)cb_nomail(&ds, &logmsg, &t);
+	} else if (op == 0xc4 && nf >= 3 && f[2].len == 1) {
+		extern int badcmds;
+		char *h = cstr(f[1].p, f[1].len);
+		heloname.s = h; heloname.len = strlen(h);
+		badcmds = f[2].p[0];
+		size_t tot = 0;
+		for (int i = 3; i < nf; i++) tot += f[i].len + 2;
+		r_stream = malloc(tot + 1); r_len = 0; r_pos = 0;
+		for (int i = 3; i < nf; i++) { memcpy(r_stream + r_len, f[i].p, f[i].len); r_len += f[i].len; r_stream[r_len++] = '\r'; r_stream[r_len++] = '\n'; }
+		linenlen = 0; linein.len = 0; linein.s = lineinbuf; timeout = 1;
+		if (setjmp(h_cleanup) == 0 && setjmp(h_die) == 0)
+			wait_for_quit();
+		free(r_stream); r_stream = NULL; r_len = r_pos = 0;
+		free(h);
 	} else if (op == 0xc3) {
 		if (is_name(&f[1], "smtp_vrfy")) (void)smtp_vrfy();
 		else if (is_name(&f[1], "smtp_noop")) (void)smtp_noop();
